@@ -55,14 +55,22 @@ let accept (req : json) : json =
       let s = quiet k s M_check_bp in
       if s.ml = MChecked then quiet k s M_execute else s
     end else s in
+  (* The search keeps the machine thread at the top of its loop, except that a setBreakpoints may be served between the
+     breakpoint check and the execute of one iteration (ml = MChecked: neither S_set_bps nor S_regs needs the state lock).
+     `settle` completes such an iteration; everything that needs the lock or more machine progress settles first. *)
+  let settle k (s : int st) = if s.ml = MChecked then quiet k s M_execute else s in
   let can_run (s : int st) = s.rs = Running && s.ml = MTop && s.conn in
-  let rec advance_to k s target = if can_run s && s.cp < target then advance_to k (iteration k s) target else s in
+  let rec advance_to k s target =
+    if s.ml = MChecked && s.cp < target then advance_to k (settle k s) target
+    else if can_run s && s.cp < target then advance_to k (iteration k s) target else s in
   (* ... stopping in front of an instruction whose breakpoint check would publish Stopped *)
   let would_hit (s : int st) = hit s.bps (pcf s.cp) && not (opt_eqb s.lcp (pcf s.cp)) in
   let rec advance_quiet k s target =
-    if can_run s && s.cp < target && not (would_hit s) then advance_quiet k (iteration k s) target else s in
+    if s.ml = MChecked && s.cp < target then advance_quiet k (settle k s) target
+    else if can_run s && s.cp < target && not (would_hit s) then advance_quiet k (iteration k s) target else s in
   let rec advance_until_publish k s bound =
-    if can_run s && s.chan = [] && s.cp <= bound then advance_until_publish k (iteration k s) bound else s in
+    if s.ml = MChecked then advance_until_publish k (settle k s) bound
+    else if can_run s && s.chan = [] && s.cp <= bound then advance_until_publish k (iteration k s) bound else s in
   let kind_of = function
     | "configurationDone" -> RConfigDone | "continue" -> RContinue | "pause" -> RPause
     | "stepIn" -> RStep KIn | "next" -> RStep KOver | "stepOut" -> RStep KOut
@@ -98,6 +106,7 @@ let accept (req : json) : json =
           (match pending with
            | Some (Arr [ _; Str k2; arg ]) when k2 = kind ->
              let finish s = go (k + 1) s None in
+             let s = if kind = "registers" || kind = "setBreakpoints" then s else settle k s in
              (match kind with
               | "configurationDone" ->
                 let s = quiet k s (S_req RConfigDone) in
@@ -138,7 +147,11 @@ let accept (req : json) : json =
                      trace, so does the latest one that lets no breakpoint of the old set fire: either just before or just
                      after the machine thread's check there *)
                   let s1 = advance_quiet k s target in
+                  let checked s =       (* the iteration's check done, its execute still pending *)
+                    let s = quiet k s M_read_state in
+                    if s.ml = MRead then quiet k s M_check_bp else s in
                   (try apply s1 with Reject (k', why) -> note k' why; false)
+                  || (can_run s1 && (let s2 = checked s1 in s2.ml = MChecked && (try apply s2 with Reject (k', why) -> note k' why; false)))
                   || (can_run s1 && apply (iteration k s1))
                 end else apply s
               | "stackTrace" ->
